@@ -258,6 +258,21 @@ def batch_loop_obligations() -> list:
                 if isinstance(recv, _ast.Name) and recv.id not in ALLOWED:
                     if recv.id not in bound or bound[recv.id] > node.lineno:
                         carried.append(f'{recv.id} (line {node.lineno})')
+            # carried state that is written to the database INSIDE the loop is re-written by every later batch (a
+            # certain defect as soon as there are two batches); carried state that is only consumed after the loop
+            # may be fine, but the once-per-generic-chunk execution cannot justify it: unsupported, not a violation
+            names = {c.split(' ')[0] for c in carried}
+            written_inside = set()
+            for node in _ast.walk(_ast.Module(body=loop.body, type_ignores=[])):
+                if isinstance(node, _ast.Call) and isinstance(node.func, _ast.Attribute) and \
+                        node.func.attr in ('execute', 'executemany', 'executescript'):
+                    for a in node.args:
+                        for nm in _ast.walk(a):
+                            if isinstance(nm, _ast.Name) and nm.id in names:
+                                written_inside.add(nm.id)
+            if carried and not written_inside:
+                raise Unsupported(f'wn._add.{fn.name}: the loop over _batch(...) at line {loop.lineno} keeps state across '
+                                  f'batches ({sorted(names)}); the chunk abstraction does not cover it')
             obs.append(Obligation(f'wn._add.{fn.name}:batch-loop@{loop.lineno - fn.lineno}:no-carried-state', PROP,
                                   'static', decided=not carried,
                                   detail=('the body mutates state created outside the loop over batches: '
